@@ -47,7 +47,15 @@ def run(chk, replay=None):
             if io == 'SKIP':
                 chk.violate('valid object line produced no output', {'cfg': cfg.describe(), 'input': l.decode('utf-8', 'replace')}, tags=['dropped'])
             elif pi != sin:
-                chk.violate('output shape differs from input shape', {'cfg': cfg.describe(), 'input': l.decode('utf-8', 'replace'), 'output': io.decode('utf-8', 'replace')}, tags=['shape'])
+                case = {'cfg': cfg.describe(), 'input': l.decode('utf-8', 'replace'), 'output': io.decode('utf-8', 'replace')}
+                if not any('shrunk_input' in v.get('case', {}) for v in chk.violations):
+                    from vlib import shrink
+                    def fails(b, cfg=cfg):
+                        t = jtree.parse(b)
+                        return t is not None and jtree.kind(t) == 'obj' and not jtree.has_dup_keys(t) and shape_proj(shrink.impl_line(cfg, b)) != jtree.shape(t)
+                    sb = shrink.shrink_line(l, fails)
+                    case['shrunk_input'] = sb.decode('utf-8', 'replace'); case['shrunk_output'] = str(shrink.impl_line(cfg, sb))[:600]
+                chk.violate('output shape differs from input shape', case, tags=['shape'])
         chk.streams.append({'stream': 'shape projection model vs implementation', 'cfg': cfg.describe(), 'cases': len(lines)})
     # through the CLI (reader, writer and flag wiring included): every object line without duplicate keys comes out as one line of the same shape
     import subprocess, tempfile, os
